@@ -212,7 +212,7 @@ extern "C" void h_vec_svector_ops()
 
 // ---- Vector * SVector, Vector * SSVector (set up in list order / by setup() / not set up) -----------------------------------------------
 #ifndef VD1
-#define VD1 4      // value range of the symbolic sparse operand in part (1)
+#define VD1 2      // value range of the symbolic sparse operand in part (1)
 #define VD2 1      // value range of the symbolic dense operand in part (2)
 #endif
 static void vec_dot_sparse(int mode)                // 0: SVector operand; 1..3: SSVector listed / sorted / dense
